@@ -372,7 +372,7 @@ func genStaticFeedN(c *Ctx, vary bool, n staticCounts, stTrips []int, shapeOfRow
 		}
 	}
 	shapeSeen := map[int]int{}
-	mk("shapes.txt", n.shapes*n.shapePoints, func(r int, sp colSpec) (string, bool) {
+	shapesTable := mk("shapes.txt", n.shapes*n.shapePoints, func(r int, sp colSpec) (string, bool) {
 		if shapeOfRow != nil {
 			switch sp.Name {
 			case "shape_id":
@@ -397,6 +397,16 @@ func genStaticFeedN(c *Ctx, vary bool, n staticCounts, stTrips []int, shapeOfRow
 		}
 		return "", false
 	})
+	if vary && shapeOfRow == nil && n.shapes > 1 && g.choose("shapes.rows_of_the_shapes_interleaved", 2) == 1 {
+		// the file lists the first point of every shape, then the second of every shape, ...: a shape's rows are not contiguous
+		var rows [][]string
+		for p := 0; p < n.shapePoints; p++ {
+			for s := 0; s < n.shapes; s++ {
+				rows = append(rows, shapesTable.Rows[s*n.shapePoints+p])
+			}
+		}
+		shapesTable.Rows = rows
+	}
 	mk("trips.txt", n.trips, func(r int, sp colSpec) (string, bool) {
 		switch sp.Name {
 		case "trip_id":
